@@ -14,7 +14,10 @@ def run(ctx):
     rng = random.Random(ctx.seed)
     ctx.cov["rule"] = ("cases = (haystack, needle) byte strings over {0x00, 0x01, 0x02, 0x80, 0xFF}: every haystack up to length 3 (quick) / 4 (thorough) x every "
                        "needle up to length 2, plus seeded longer pairs; each case evaluates every query for every position / count in {0..5, npos} "
-                       "(49 argument pairs for the two-argument queries); non-trivial = haystack non-empty; distinct by content")
+                       "(49 argument pairs for the two-argument queries); a second event per case covers the const char* / (pointer, length) / char / std::string "
+                       "overloads (const char* arguments denote the bytes before the first NUL), all four iterator pairs, front / back / length, swap, clear, "
+                       "conversions, and every query between ALIASING views (h against h.substr(pos, n) on the same storage, 49 (pos, n) pairs); "
+                       "non-trivial = haystack non-empty; distinct by content")
     tlc_mc(ctx, SD, "MC_SVA", "mc_sva.cfg", workers=8, coverage=False, timeout=3000,
            cfg_text="CONSTANTS Bytes = {0, 1, 255}\n MaxH = %d\n MaxN = 2\nSPECIFICATION Spec\nINVARIANT Laws\nCHECK_DEADLOCK FALSE\n" % (3 if quick else 4))
     hs = [list(c) for n in range(0, 4 if quick else 5) for c in itertools.product(ALPHA, repeat=n)]
@@ -25,7 +28,7 @@ def run(ctx):
     lines = ["%d %s %d %s" % (len(h), " ".join(map(str, h)), len(n), " ".join(map(str, n))) for h, n in pairs]
     for ln in lines:
         ctx.count_case(ln, nontrivial=not ln.startswith("0 "))
-    ctx.cov["query_evaluations"] = len(lines) * (9 + 11 * 7 + 3 * 49)
+    ctx.cov["query_evaluations"] = len(lines) * (9 + 11 * 7 + 3 * 49 + 16 * 7 + 24 + 5 * 49 + 20)
     scr = ctx.path("sv_scripts.txt")
     open(scr, "w").write("\n".join(lines) + "\n")
     src = os.path.join(HARNESS, "drv_sv.cpp")
@@ -37,10 +40,12 @@ def run(ctx):
     if not (os.path.exists(tr) and os.path.getsize(tr)):
         return
     tl = [x for x in read_text(tr).split("\n") if x]
-    tlx_ev = [x for x in tl if '"e":"sv"' in x]
-    std_ev = [x for x in tl if '"e":"sv_std"' in x]
+    tlx_ev = [x for x in tl if '"e":"sv"' in x or '"e":"svx"' in x]
+    std_ev = [x for x in tl if '"e":"sv_std"' in x or '"e":"svx_std"' in x]
+    if not any('"e":"svx"' in x for x in tlx_ev):
+        raise InternalError("driver recorded no svx events")
     ctx.sample({"recorded_event(excerpt)": {k: v for k, v in json.loads(tlx_ev[len(tlx_ev) // 2]).items() if k in ("h", "n")}})
-    ctx.sample({"tlx_results_for_it": {k: v for k, v in json.loads(tlx_ev[len(tlx_ev) // 2])["t"].items() if k in ("compare", "lt", "find", "rfind", "substr")}})
+    ctx.sample({"tlx_results_for_it": {k: v for k, v in json.loads(tlx_ev[len(tlx_ev) // 2])["t"].items() if k in ("compare", "lt", "find", "rfind", "substr", "rel_z", "find_z", "rev")}})
     # (1) the definitions themselves against std::string_view: a rejection here is a mistake in SVA -> internal error, never a violation
     fstd = ctx.path("sv_std.ndjson")
     with open(fstd, "w") as f:
